@@ -18,6 +18,8 @@ QUERIES = [
     # relationships that are stored verbatim in some of the states (a subject id and a subject set)
     (["D", "d", "a", ["id", "u"]], "valid"),
     (["G", "g", "m", ["set", "G", "h", "m"]], "valid"),
+    # a subject id that differs from a stored one by a trailing blank: another subject
+    (["D", "d", "a", ["id", "u "]], "valid"),
 ]
 STATES = [[], [8], [2, 8], [1, 3, 4, 5, 6], [3, 5, 6, 9, 10], [1, 2, 3, 4, 5, 6, 7, 8, 9, 10], [3, 4, 8], [2, 3, 5, 6]]
 
